@@ -56,6 +56,11 @@ def state_case(rep, spec, index):
         return
     j = pair(j)
     y_ref = j[0] / (j[0] + j[1])
+    if not (0 <= y_ref <= 1):
+        # the returned fluxes have no valid composition (a slightly negative flux at the last evaluation): the helpers
+        # legitimately refuse to build one, there is nothing derived to compare
+        rep.count("standalone_fluxes_without_valid_composition_skipped")
+        return
     # the same object asked about the same state with the OTHER model in between: both answers must equal those of
     # fresh objects (the selected activity model is honoured, whatever was asked before)
     from pyvaporation.pervaporation import Pervaporation
